@@ -158,6 +158,16 @@ func checkC09Strip(w *World, r *Report) {
 							return "host with a non-numeric \":suffix\" returned unchanged"
 						}
 					}
+					// a syntactic rejection of the host part (unbalanced or stray brackets, further colons): what
+					// net.SplitHostPort reports as an error, tested with predicates of package strings
+					if c, ok := f.Cond.(*ssa.Call); ok {
+						if obj := calleeObj(c); obj != nil && obj.Pkg() != nil && obj.Pkg().Path() == "strings" {
+							switch obj.Name() {
+							case "HasPrefix", "HasSuffix", "Contains", "ContainsAny", "ContainsRune", "IndexByte", "Count":
+								return "malformed host:port returned unchanged"
+							}
+						}
+					}
 				}
 				return ""
 			}
